@@ -65,7 +65,7 @@ func genC07(g *rand.Rand, tier string) any {
 	if read > 0 {
 		b = append(b, Op{K: 'r', N: read})
 	}
-	b = append(b, Op{K: 'w'}, Op{K: 'R'}, Op{K: 'r'})
+	b = append(b, Op{K: 'w'}, Op{K: 'R'}, Op{K: 'r'}, Op{K: 't'}, Op{K: 'h'}) // Trailer() and Header() are legal on a cancelled stream too
 	t.CProg = []Op{{K: 'f', A: a, B: b}, {K: 's'}}
 	// handler: consume some, answer, then either wait for its context or return
 	var h []Op
